@@ -1,10 +1,11 @@
 #!/usr/bin/env python3
 """Collect the confirmed seeded changes from the scratch area into /verif/seeded/<id>/
 (patch.diff, demo_test.go, WHERE.txt, README.md of the author, meta.json) and write
-seeded/README.md.  usage: mkseeded.py [/tmp/mut]"""
+seeded/README.md.  usage: mkseeded.py [/tmp/mut [tag]]"""
 import json, os, re, shutil, sys
 ROOT = os.path.dirname(os.path.dirname(os.path.abspath(__file__)))
 SRC = sys.argv[1] if len(sys.argv) > 1 else "/tmp/mut"
+TAG = sys.argv[2] if len(sys.argv) > 2 else ""
 OUT = os.path.join(ROOT, "seeded")
 
 def needs_section(readme):
@@ -39,7 +40,7 @@ def main():
             res = json.load(open(st))
             if not res.get("confirmed"):
                 continue
-            sid = "%s-%s" % (prop, mm)
+            sid = "%s-%s%s" % (prop, (TAG + "-") if TAG else "", mm)
             dst = os.path.join(OUT, sid)
             os.makedirs(dst, exist_ok=True)
             for f in ("patch.diff", "demo_test.go", "WHERE.txt", "README.md"):
@@ -72,6 +73,11 @@ def main():
             }
             json.dump(meta, open(os.path.join(dst, "meta.json"), "w"), indent=1)
             rows.append(meta)
+    rows = []
+    for d in sorted(os.listdir(OUT)):
+        mf = os.path.join(OUT, d, "meta.json")
+        if os.path.exists(mf):
+            rows.append(json.load(open(mf)))
     with open(os.path.join(OUT, "README.md"), "w") as f:
         f.write("# Seeded changes\n\nEach directory holds a change to philpearl/avro written by a fresh sub-agent that saw only the\n"
                 "property text (`patch.diff`), its demonstration (`demo_test.go`, `WHERE.txt`), the author's notes\n"
